@@ -253,47 +253,54 @@ def weights_rule(ctx, gl, lib):
 def sri_rule(ctx, lib):
     repo = ctx.repo
     r = ctx.rule("R2.6", "Timoshenko selective integration: bending rows + shear rows partition the diagonal of D; row tables of BeamBending, BeamShear, Isotropic.Get_D and _Timoshenko.Get_beam_B_e_pg agree", min_instances=4)
-    # shear-row tables: a dict literal {dim: rows} subscripted by the dimension
-    from ..flow import Locals
-
-    tabs = {}
-    for fname in ("BeamBending", "BeamShear"):
-        f = repo.func(f"{BIL}.{fname}")
-        for n in ast.walk(f.node):
-            if isinstance(n, ast.Assign) and isinstance(n.value, ast.Subscript) and isinstance(n.value.value, ast.Dict) and isinstance(n.targets[0], ast.Name):
-                try:
-                    d = ast.literal_eval(n.value.value)
-                except Exception:
+    # BeamBending and BeamShear are interpreted on a Timoshenko stand-in whose strain operator is the identity and whose D is
+    # diag(d0, d1, ...): each returns the diagonal entries it integrates.  (The rows used to be read off the SYNTAX - a dict
+    # literal and the shape of the zeroing loops - which failed on a vectorised rewrite, refactored/C02-R5.)
+    tim_ci = repo.cls("EasyFEA.FEM.Elems._beam._Timoshenko")
+    shear = {}
+    for dim in (2, 3):
+        n = 3 if dim == 2 else 6
+        kept = {}
+        for fname in ("BeamBending", "BeamShear"):
+            f = repo.func(f"{BIL}.{fname}")
+            r.instance(fn=f.qualname)
+            g = XObj(tim_ci, dict(Ne=1, nPe=1))
+            eye = XArray((1, 1, n, n), [Q(1) if a == b else Q(0) for a in range(n) for b in range(n)])
+            g.attrs["Get_weightedJacobian_e_pg"] = lambda mt=None: XArray((1, 1), [Q(1)])
+            g.attrs["Get_beam_B_e_pg"] = lambda bs=None, mt=None, _e=eye: XArray(_e.shape, list(_e.data))
+            bs = SimpleNamespace(dim=dim, dof_n=n, Calc_D_e_pg=lambda ge=None, mt=None, _n=n: XArray((1, 1, _n, _n), [Poly.var(f"d{a}") if a == b else Q(0) for a in range(_n) for b in range(_n)]))
+            out = XArray.from_nested(Interp(repo).call_function(f, [g, bs]))
+            off = [(a, b) for a in range(n) for b in range(n) if a != b and not is_zero(out[0, a, b])]
+            if off:
+                r.fail(f.qualname, f"offdiag{dim}", f.file, f.lineno, fname, f"dim {dim}: with a diagonal D and B = identity the operator has off-diagonal entries {off}")
+                kept[fname] = None
+                continue
+            rows, bad = [], None
+            for a in range(n):
+                v = Poly.of(out[0, a, a])
+                if is_zero(v):
                     continue
-                tabs[fname] = ({k: tuple(v) for k, v in d.items()}, f, n, n.targets[0].id)
-    if set(tabs) != {"BeamBending", "BeamShear"}:
-        raise AnalysisError("R2.6: shear-row tables ({dim: rows}[dim]) not found in BeamBending/BeamShear")
-    r.instance(fn=tabs["BeamBending"][1].qualname)
-    if tabs["BeamBending"][0] == tabs["BeamShear"][0]:
-        r.ok(f"shear_rows agree: {tabs['BeamBending'][0]}")
-    else:
-        f, n = tabs["BeamShear"][1], tabs["BeamShear"][2]
-        r.fail(f.qualname, "shear_rows", f.file, n.lineno, "BeamShear", f"shear_rows tables differ: BeamBending {tabs['BeamBending'][0]} vs BeamShear {tabs['BeamShear'][0]}: some strain row is integrated twice or never")
-    shear = tabs["BeamBending"][0]
-    # the zeroing logic: Bending zeroes D[r,r] for r in shear_rows; Shear zeroes D[r,r] for r NOT in shear_rows
-    for fname, expect_not in (("BeamBending", False), ("BeamShear", True)):
-        f = tabs[fname][1]
-        tabname = tabs[fname][3]
+                if is_zero(v - Poly.var(f"d{a}")):
+                    rows.append(a)
+                else:
+                    bad = f"row {a} is integrated as {v} instead of d{a}"
+            if bad:
+                r.fail(f.qualname, f"weight{dim}", f.file, f.lineno, fname, f"dim {dim}: {bad}")
+                kept[fname] = None
+            else:
+                kept[fname] = tuple(rows)
+                r.ok(f"{fname} dim {dim}: integrates rows {tuple(rows)} of D")
+        if kept.get("BeamBending") is None or kept.get("BeamShear") is None:
+            continue
+        f = repo.func(f"{BIL}.BeamShear")
         r.instance(fn=f.qualname)
-        ok = False
-        for n in ast.walk(f.node):
-            if isinstance(n, ast.For) and isinstance(n.target, ast.Name):
-                v = n.target.id
-                zero = [a for a in ast.walk(n) if isinstance(a, ast.Assign) and isinstance(a.targets[0], ast.Subscript) and isinstance(a.targets[0].slice, ast.Tuple) and [norm_text(e) for e in a.targets[0].slice.elts[-2:]] == [v, v] and norm_text(a.value) in ("0.0", "0")]
-                if not zero:
-                    continue
-                iter_is_table = isinstance(n.iter, ast.Name) and n.iter.id == tabname
-                guards = [g for g in ast.walk(n) if isinstance(g, ast.If) and isinstance(g.test, ast.Compare) and isinstance(g.test.ops[0], ast.NotIn) and norm_text(g.test.left) == v and isinstance(g.test.comparators[0], ast.Name) and g.test.comparators[0].id == tabname]
-                ok = (expect_not and bool(guards) and not iter_is_table) or (not expect_not and iter_is_table and not guards)
-        if ok:
-            r.ok(f"{fname}: zeroes the diagonal entries of the {'non-shear' if expect_not else 'shear'} rows only")
+        both = sorted(set(kept["BeamBending"]) & set(kept["BeamShear"]))
+        none = [a for a in range(n) if a not in kept["BeamBending"] and a not in kept["BeamShear"]]
+        if both or none:
+            r.fail(f.qualname, "shear_rows", f.file, f.lineno, "BeamShear", f"dim {dim}: the bending operator integrates rows {kept['BeamBending']} and the shear operator rows {kept['BeamShear']}: " + (f"rows {both} are integrated twice" if both else f"rows {none} are never integrated"))
         else:
-            r.fail(f.qualname, "zeroing", f.file, f.lineno, fname, "the loop that zeroes D[r, r] does not select the expected rows")
+            r.ok(f"dim {dim}: bending rows {kept['BeamBending']} + shear rows {kept['BeamShear']} partition D")
+        shear[dim] = kept["BeamShear"]
     # Isotropic.Get_D(True): diagonal, shear entries exactly at shear rows
     iso = repo.cls("EasyFEA.Models.Beam._beam.Isotropic")
     fD = repo.lookup_method(iso, "Get_D")
